@@ -77,6 +77,14 @@ def mc_cfg(inv=PROPS, **kw):
 RE_COV = re.compile(r"^<(MC\w+) line .*>: (\d+):(\d+)")
 
 
+def nth_line(path, n):
+    with open(path) as f:
+        for i, ln in enumerate(f):
+            if i == n:
+                return ln
+    return "null"
+
+
 def action_coverage(out):
     cov = {}
     for line in open(out, errors="replace"):
@@ -291,7 +299,7 @@ def run(ctx):
                 ("two pools, one proposal, two allocations", dict(gov=1, ext=0, weights="0, 1, 4"))]
     else:
         gens = [("two pools, one user gauge, one proposal, two allocations", dict(gov=1, weights="0, 1, 4")),
-                ("one pool, one user gauge, two proposals, two allocations", dict(pools=1, weights="0, 1, 4", funds="2, 3")),
+                ("one pool, one user gauge, two proposals, two allocations", dict(pools=1, weights="0, 1, 4")),
                 ("one pool, two proposals of up to three records", dict(pools=1, ext=0, alloc=1, weights="0, 1, 4", maxlen=3))]
     replayed = rsteps = 0
     kinds = {}
@@ -305,7 +313,7 @@ def run(ctx):
         n = vlib.extract_gen(r.out, gen)
         if n == 0:
             raise Infra("generator produced no behaviours")
-        nsh = 4
+        nsh = 4 if q else 8
 
         def shard(i):
             vlib.run_test(binary, "TestReplay", {"VERIF_IN": gen, "VERIF_OUT": gen + ".result%d" % i, "VERIF_SHARD": "%d/%d" % (i, nsh)}, timeout=3000)
@@ -332,7 +340,7 @@ def run(ctx):
         log("replayed %d spec behaviours (%s; %d states) on the real keepers: %d mismatches" % (nb, name, r.distinct, len(mm)))
         if mm:
             m = mm[0]
-            beh = open(gen).read().split("\n")[m["behaviour"]]
+            beh = nth_line(gen, m["behaviour"])
             raise Violation("X03", "real keeper deviates from the specification on a generated behaviour at step %d: %s (want %s, got %s)"
                             % (m["step"], m["what"], json.dumps(m["want"])[:300], json.dumps(m["got"])[:300]),
                             {"mismatch": m, "behaviour": json.loads(beh)}, "replay:" + m["what"])
